@@ -1,6 +1,7 @@
 package main
 
 import (
+	"bytes"
 	"encoding/hex"
 	"encoding/json"
 	"fmt"
@@ -170,7 +171,24 @@ func qB(b bool) string {
 }
 
 // qHex renders a byte string as (hex "...").
+// hexSub, when set, is a long byte string known to Coq by a short term (hexSubTerm): occurrences inside other
+// byte strings are written as that term, which keeps case files with large payloads small.
+var hexSub []byte
+var hexSubTerm string
+
 func qHex(b []byte) string {
+	if len(hexSub) >= 64 && len(b) >= len(hexSub) {
+		if i := bytes.Index(b, hexSub); i >= 0 {
+			if len(b) == len(hexSub) {
+				return hexSubTerm
+			}
+			return "(" + qHexPlain(b[:i]) + " ++ " + hexSubTerm + " ++ " + qHex(b[i+len(hexSub):]) + ")%list"
+		}
+	}
+	return qHexPlain(b)
+}
+
+func qHexPlain(b []byte) string {
 	if len(b) <= 512 {
 		return `(hex "` + hex.EncodeToString(b) + `")`
 	}
@@ -229,3 +247,10 @@ func replayCase(line string) int {
 }
 
 var replayers = map[string]func(string) int{}
+
+func (r *rng) shuffleItems(m [][2]*citem) {
+	for i := len(m) - 1; i > 0; i-- {
+		j := r.intn(i + 1)
+		m[i], m[j] = m[j], m[i]
+	}
+}
